@@ -171,6 +171,24 @@ class Case:
         return {"setup": self.setup, "word": self.word, "probe": self.probe, "wire": self.wire}
 
 
+REF_SETUP = {"ok": None, "unset": "unset r", "empty": "r=", "bad": "r='1x'"}
+
+
+class IndCase(Case):
+    """the operator through a reference: `${!r<op>}` where r holds the text of the target parameter
+    (ok), or is unset / empty / holds text that is no parameter.  The probe reports the target."""
+
+    def __init__(self, tag, target, op, nounset=False, ref="ok"):
+        self.tag, self.param, self.op, self.nounset = tag, target, op, nounset
+        setup, name, probe = render_param(target)
+        setup += "\n" + (REF_SETUP[ref] or "r=" + sq(name))
+        if nounset:
+            setup += "\nset -u"
+        self.setup, self.word, self.probe = setup, render_op("!r", op), probe
+        self.wire = "C06 %d IND %s %s %s" % (1 if nounset else 0, ref, wire_param(target), wire_op(op))
+        self.feat = "ind-" + op[0]
+
+
 class Direct:
     """a case outside the Lean model's coverage: brush against bash only"""
     __slots__ = ("tag", "setup", "word", "probe", "wire", "feat")
@@ -470,6 +488,95 @@ def extglob_direct(ctx):
     return out
 
 
+# -- state x operator x nounset x indirection ------------------------------------------------------
+
+def ind_targets():
+    ts = []
+    for v in [None, "", "ab", "a b", "é*"]:
+        ts += scalar_params(v)
+    for vals in [[], [""], ["", ""], ["p"], ["p", "q r", ""]]:
+        for star in (False, True):
+            ts.append(("all", vals, star, False))
+            ts.append(("posall", vals, star))
+    ts.append(("all", ["x"], False, True))
+    return ts
+
+
+def ind_ops():
+    ops = [("plain",)]
+    for t in TEST_KINDS:
+        for colon in (False, True):
+            for w in ("", "w", "a b"):
+                ops.append(("test", t, colon, w))
+    for k in RM_KINDS:
+        for pat in (None, [("S",)], [("L", "a", ""), ("S",)], [("Q",)]):
+            ops.append(("rm", k, pat))
+    for off, ln in [(0, None), (1, None), (1, 1), (-1, None), (0, 0), (1, -1), (0, -3), (5, None), (-7, 2)]:
+        ops.append(sub_op(off, ln))
+    return ops
+
+
+def indirect_exhaustive(ctx):
+    out = []
+    for t in ind_targets():
+        if t[0] == "all" and t[3] and False:
+            continue
+        for op in ind_ops():
+            if op[0] == "test" and op[1] == "=" and t[0] == "all" and t[3]:
+                continue        # bash assigns A[@] as the key "@"
+            for nu in (False, True):
+                out.append(IndCase("iexh", t, op, nu))
+    # a reference that cannot be followed: every operator fails, with and without nounset
+    for ref in ("unset", "empty", "bad"):
+        for t in [("named", "ab", ""), ("named", None, "unset")]:
+            for op in ind_ops():
+                for nu in (False, True):
+                    out.append(IndCase("iexh", t, op, nu, ref))
+    return out
+
+
+def indirect_random(ctx, n):
+    rng = ctx.rng
+    out = []
+    for _ in range(n):
+        t = rand_param(rng)
+        r = rng.random()
+        if r < 0.1:
+            op = ("plain",)
+        elif r < 0.5:
+            op = ("test", rng.choice(TEST_KINDS), rng.random() < 0.5, rand_value(rng, 3))
+        elif r < 0.75:
+            op = ("rm", rng.choice(RM_KINDS), rand_pat(rng))
+        else:
+            ln = None if rng.random() < 0.3 else rng.randint(-9, 9)
+            op = sub_op(rng.randint(-9, 9), ln, rng)
+        if op[0] == "test" and op[1] == "=" and t[0] == "all" and len(t) > 3 and t[3]:
+            continue
+        ref = "ok" if rng.random() < 0.9 else rng.choice(["unset", "empty", "bad"])
+        out.append(IndCase("irand", t, op, rng.random() < 0.5, ref))
+    return out
+
+
+def unmodelled_state_table(ctx):
+    """replacement, case modification and @-transformations over state x nounset x indirection: brush against bash"""
+    out = []
+    ops = ["/a/X", "//a/X", "/#a/X", "/%b/X", "/a", "^", "^^", ",", ",,", "^^[ab]", "@Q", "@U", "@L", "@E", "@a", "@A"]
+    states = [("unset v", "v"), ("v=", "v"), ("v='ab'", "v"), ("declare v", "v"), ("a=(q)", "a[1]"), ("a=(q 'ab')", "a[1]"),
+              ("a=()", "a[@]"), ("a=(ab 'b a')", "a[@]"), ("a=(ab 'b a')", "a[*]"), ("set --", "1"), ("set -- ab", "1"),
+              ("set -- ab ba", "@"), ("set --", "@"), ("declare -A A=([k]=ab)", "A[k]"), ("declare -A A=([x]=q)", "A[k]")]
+    for setup, name in states:
+        for op in ops:
+            for nu in (False, True):
+                tail = "\nset -u" if nu else ""
+                out.append(Direct("state-" + op.strip("/^,@")[:1] + ("u" if nu else ""), setup + tail, '"${%s%s}"' % (name, op)))
+                out.append(Direct("ind-unmodelled", setup + "\nr=" + sq(name) + tail, '"${!r%s}"' % op))
+    for op in ops:
+        for nu in (False, True):
+            for rs in ("unset r", "r=", "r='1x'"):
+                out.append(Direct("ind-unmodelled", rs + ("\nset -u" if nu else ""), '"${!r%s}"' % op))
+    return out
+
+
 def rand_value(rng, maxlen=6):
     return "".join(rng.choice(ALPHA) for _ in range(rng.randint(0, maxlen)))
 
@@ -616,7 +723,7 @@ def load_corpus():
                         c.tag, c.param, c.op, c.nounset = "corpus", None, None, False
                         c.setup, c.word, c.probe, c.wire = rec["setup"], rec["word"], rec["probe"], rec["wire"]
                         c.feat = rec["wire"].split(" ")
-                        c.feat = next((t for t in ("plain", "len", "sub", "rm", "rmx") if t in c.feat), "test")
+                        c.feat = next((t for t in ("plain", "len", "sub", "rmx", "rm") if t in c.feat), "test")
                     else:
                         c = Direct(rec.get("feature", "corpus"), rec["setup"], rec["word"], rec.get("probe", "-"))
                         c.tag = "corpus"
@@ -624,7 +731,8 @@ def load_corpus():
     return out
 
 
-CLAUSE_PRIORITY = ["extglob_negation_not_complement", "substring_negative_length", "length_counts_bytes", "shortest_match_skips_empty",
+CLAUSE_PRIORITY = ["indirect_assign_default_assigns_reference", "indirect_positional_slice_without_argv0",
+                   "extglob_negation_not_complement", "substring_negative_length", "length_counts_bytes", "shortest_match_skips_empty",
                    "pattern_anchors_at_newlines", "all_null_elements_count_as_null",
                    "at_alternative_on_empty_list_keeps_field"]
 
@@ -728,8 +836,11 @@ def run(ctx):
     cases += random_cases(ctx, ctx.size(6000, 120000))
     cases += extglob_exhaustive(ctx)
     cases += extglob_random(ctx, ctx.size(3000, 40000))
+    cases += indirect_exhaustive(ctx)
+    cases += indirect_random(ctx, ctx.size(3000, 40000))
     cases += direct_cases(ctx, 0)
     cases += extglob_direct(ctx)
+    cases += unmodelled_state_table(ctx)
     # de-duplicate (the exhaustive families overlap)
     seen, uniq = set(), []
     for c in cases:
